@@ -1016,6 +1016,21 @@ func (fv *FV) callWriteComps(x *ast.CallExpr) ([]string, bool) {
 			}
 		}
 		if call, ok := mx.(*ast.CallExpr); ok && len(call.Args) == 1 {
+			if id := identOf(ast.Unparen(call.Fun)); id != nil && id.Name == "gh_hdr" {
+				if sx, ok := ast.Unparen(call.Args[0]).(*ast.SelectorExpr); ok {
+					savedInfo := fv.info
+					fv.info = cl.Info
+					cs, all := fv.lhsComps(sx)
+					fv.info = savedInfo
+					if !all {
+						out = append(out, cs...)
+						continue
+					}
+				}
+				return nil, true
+			}
+		}
+		if call, ok := mx.(*ast.CallExpr); ok && len(call.Args) == 1 {
 			if id := identOf(ast.Unparen(call.Fun)); id != nil && id.Name == "gh_anyOf" {
 				mx = ast.Unparen(call.Args[0])
 			}
